@@ -365,6 +365,26 @@ var scenarios = []scenario{
 		s.mk("create", d, "reuse-slot")
 		s.opReaddir(d, 0, 0xffffffff)
 	}},
+	{"rename onto the dot entries of a moved directory", func(s *seqRun) {
+		// a directory moved to another parent keeps its old ".." (known finding); if RENAME took
+		// ".." as a target name it would free that old parent, which still has its own name
+		a := s.mk("mkdir", s.root(), "a")
+		b := s.mk("mkdir", a, "b")
+		s.opRename(a, "b", s.root(), "b")
+		s.mk("mkdir", s.root(), "c")
+		s.opRename(s.root(), "c", b, "..")
+		s.opLookup(s.root(), "a")
+		s.opGetattr(a)
+		s.opLookup(s.root(), "c")
+		s.opRename(s.root(), "c", b, ".")
+		s.mk("create", s.root(), "f")
+		s.opRename(s.root(), "f", b, "..")
+		s.opRename(s.root(), "f", b, ".")
+		s.mk("mkdir", s.root(), "x") // would take the number of a freed directory
+		s.opLookup(s.root(), "a")
+		s.opReaddirplus(s.root(), 0, 1000, 10000)
+		s.opReaddirplus(b, 0, 1000, 10000)
+	}},
 	{"renames over existing targets", func(s *seqRun) {
 		a := s.mk("mkdir", s.root(), "a")
 		b := s.mk("mkdir", s.root(), "b")
